@@ -606,6 +606,9 @@ func c44Worker(w *WorkerCtx) {
 			res.Extra["corpus_kind:"+k] += n
 		}
 		res.Extra["corpus_items_written_by:"+it.WrittenBy]++
+		if sm, err := json.Marshal(map[string]any{"corpus_item": it.Name, "kind": it.Kind, "written_by": it.WrittenBy, "writer_engine": it.Engine, "registers": len(it.World.Ledger), "domain_values": len(it.Domains), "paths_read": len(it.Paths), "continuation_steps": len(it.Cont), "value_kinds": it.Kinds}); err == nil {
+			res.Sample = sm
+		}
 		if len(vs) > 0 {
 			v := vs[0]
 			rf := &ReplayFile{Property: "C44", Oracle: v.Oracle, VerifSeed: int64(w.Seed), Tier: w.Tier, Kind: "c44corpus", Custom: json.RawMessage(fmt.Sprintf("%q", it.Name)), Violation: &v}
@@ -637,6 +640,15 @@ func c44Worker(w *WorkerCtx) {
 		res := WorkResult{Kind: "item", Seed: seed, Shape: fmt.Sprintf("zoo:%d:%s", seed, engine), NonTrivial: len(zr.Entries) > 20, Stats: stats, Extra: map[string]int{"live_zoo_histories": 1, "live_zoo_entries": len(zr.Entries)}}
 		for _, e := range zr.Entries {
 			res.Extra["live_kind:"+e.Kind]++
+		}
+		if k == 0 {
+			var first []string
+			for i, e := range zr.Entries {
+				if i%9 == 0 && len(first) < 10 {
+					first = append(first, e.Kind+": "+clip(e.Store, 160))
+				}
+			}
+			res.Sample, _ = json.Marshal(map[string]any{"live_zoo_seed": seed, "engine": engine, "entries": len(zr.Entries), "some_entries": first})
 		}
 		if len(vs) > 0 {
 			v := vs[0]
